@@ -17,7 +17,7 @@ register(Harness("c02_faults", "C02", lambda P: reharness.make_sweep(P, oracles.
                  symbolic=SYM + "; plus one device fault: protocol call j raises, or the status returned by call j fails", out_of_bound=OUT, stubs=STUBS,
                  require_exhaustive=True))
 register(Harness("c02_settle", "C02", lambda P: reharness.make_sweep(P, oracles.c02_exit_status, plans=["late_wait", "scan2"] if P["tier"] == "quick" else PLANS_T + ["late_wait"],
-                                                                       kinds=["pause"], decisions=["resume"], faults=True, run_kw=dict(settle_paused=True)),
+                                                                       kinds=["pause"], decisions=["resume"], faults=True, run_kw=dict(settle_paused=True), ctx=True),
                  {"quick": dict(shards=16, budget_s=300, per_path_s=30), "thorough": dict(shards=64, budget_s=3000, per_path_s=30)},
                  goals=["device-failure-surfaced", "paused"], functions=_fns, mode="schedule",
                  symbolic=SYM + "; one device fault; virtual time advances while the engine is paused, so a pending status can fail during the pause", out_of_bound=OUT, stubs=STUBS,
